@@ -297,7 +297,7 @@ RULES = [
 
 
 from . import shared
-RULES = RULES + shared.bundle('C16', ['carry', 'gate', 'restart', 'driver', 'values', 'stride', 'norm', 'loops'], ['modelinfo', 'core', 'generate'])
+RULES = RULES + shared.bundle('C16', ['gpu', 'carry', 'gate', 'restart', 'driver', 'values', 'stride', 'norm', 'loops'], ['modelinfo', 'core', 'generate'])
 from .. import refs as _refs
 RULES = RULES + [_refs.ref_rule('C16')]
 
